@@ -16,7 +16,7 @@ trap cleanup EXIT
 git -C /repo worktree add --detach "$WT" HEAD >/dev/null 2>&1 || exit 2
 git -C "$WT" apply "$SRC/patch.diff" || { echo "patch does not apply" >&2; exit 2; }
 mkdir -p "$VR"
-rsync -a --exclude bin --exclude evidence --exclude replay --exclude seeded --exclude .git /verif/ "$VR/"
+rsync -a --exclude bin --exclude evidence --exclude replay --exclude seeded --exclude .git "${SEEDED_SRC:-/verif}/" "$VR/"
 sed -i "s#=> /repo#=> $WT#" "$VR/harness/go.mod"
 grep -q "$WT" "$VR/harness/go.mod" || { echo "replace not rewritten" >&2; exit 2; }
 export GOFLAGS=-mod=mod GOPROXY=off GOSUMDB=off GOTOOLCHAIN=local
